@@ -228,4 +228,33 @@ CHECKS = {
         assumptions=["'the connection fails' is modelled as both directions failing; a connection that fails only for writes while reads keep working is not asserted",
                      "connection deadlines are not honoured by the buffered in-memory connection, so the library's 30 s default deadline never masks a hang"],
     ),
+    "C09": dict(
+        pkg="stack",
+        race=True,
+        level="exploration",
+        groups=[G("^TestC09_Seq$", 1500, 15000), G("^TestC09_Conc$", 100, 1500), G("^TestC09_ProbeD14$", 1, 1, shard=False)],
+        rule="CSession <-> in-memory connection <-> ServeConn(SSession(S)) with S a recording session returning generated results. Sequential: 1..12 calls per connection over all 11 "
+             "Session methods with boundary-biased arguments (fids, int64 offsets incl. negative and 2^63-1, buffer/data lengths around msize-11 / msize-23 and far beyond, all modes, perms, "
+             "0..20 walk names, Dir records with sub-second times), results or errors (MessageRerror or plain) from S; negotiated msize forced to 128..65535 by rewriting the client's Tversion in flight. "
+             "Oracle: S received exactly the caller's arguments and the caller exactly S's results up to the documented limits (read/write clipped to msize-11/msize-23, ErrShortWrite, whole-second "
+             "times, >16 names refused locally, 0-byte read may surface as io.EOF, errors by text). Concurrent: 2..4 (rendezvous) / 2..32 (buffered) callers x 1..12 calls whose results derive from the "
+             "fid; each caller must get its own result and all must complete within 5 s. Non-trivial = a call with non-zero fid whose S-side result is a success; distinct by case hash.",
+        require_classes=dict(quick=["m_" + m for m in "auth attach clunk remove walk read write open create stat wstat".split()] + ["clipped_to_msize", "session_error", "conc_rendezvous", "conc_buffered", "d14_probe"], thorough=[]),
+        assumptions=["arguments are generated so that every request and reply other than read/write data fits in msize (messages that do not fit are C02's business)",
+                     "known finding D14: >= 5 concurrent callers over a zero-buffer connection wedge; the generator stays below that on rendezvous connections and a separate probe reports it"],
+    ),
+    "C10": dict(
+        pkg="stack",
+        level="exploration",
+        groups=[G("^TestC10_ServerNeg$", 750, 10000), G("^TestC10_ClientNeg$", 750, 10000)],
+        rule="(a) real ServeConn vs a scripted client proposing any msize in [0, 2^32) (dense at 0..30, 18..24, 2^16+-2, 2^31+-1, 2^32-1) with arbitrary version strings, or a first message that is "
+             "not Tversion; then maximal traffic: a Twrite frame of exactly the agreed size (must reach the handler intact), a Tread with count 2^32-1 (handler must see count <= agreed-11, the maximal Rread "
+             "must be emitted whole and within msize), a handler result that does not fit (must not be emitted oversize), a frame of agreed+1 bytes (must not be dispatched). (b) real CSession vs a scripted "
+             "server answering any msize; Version() must be min(65536, answer); then every Session method is called with oversized arguments and every frame the client emits must be <= agreed, and a maximal "
+             "read (Rread frame of exactly the agreed size) must be delivered. Refusals: ServeConn must return an error and the handler must see neither Handle nor Stop. "
+             "Non-trivial = min(proposal, answer) < 65536 or a refusal.",
+        require_classes=dict(quick=["negotiated", "refused_first_message_not_version", "refused_msize_too_small_for_rversion", "max_twrite_delivered", "max_rread_emitted", "oversize_not_dispatched", "agreed_below_24", "emitted_read", "refused_read"], thorough=[]),
+        assumptions=["the server's own maximum is 65536 (DefaultMSize) and the client proposes 65536, as the code documents",
+                     "19 bytes (the Rversion frame for '9P2000') is the smallest proposal that can carry the version reply"],
+    ),
 }
